@@ -165,3 +165,25 @@ class Grammar:
                 alts.append(x)
         flat(e)
         return [((a["v"] if a["k"] == "ident" else a["k"]), a) for a in alts]
+
+
+    def seq_elements(self, e):
+        out = []
+
+        def flat(x):
+            if x["k"] == "seq":
+                flat(x["a"])
+                flat(x["b"])
+            else:
+                out.append(x)
+        flat(e)
+        return out
+
+    def mentions(self, e, name, seen=frozenset()):
+        if e["k"] == "ident":
+            if e["v"] == name:
+                return True
+            if e["v"] in self.rules and e["v"] not in seen:
+                return self.mentions(self.rules[e["v"]]["expr"], name, seen | {e["v"]})
+            return False
+        return any(self.mentions(v, name, seen) for k, v in e.items() if isinstance(v, dict))
